@@ -24,7 +24,7 @@ RULE = ('JSON: the full matrix dtype {bool,int8..uint64,float16/32/64, big-endia
         'dictionaries over int (also negative, NumPy) and non-numeric str top-level keys with values from '
         '{None,bool,int,float incl. NaN/inf/1e300,unicode str,list,nested dict,NumPy scalar,ndarray}. '
         'TSV/CSV: random row lists over 2-5 fields with missing fields, fully empty rows, both delimiters, '
-        'cells with the other delimiter / quotes / spaces, first_field and exclude_fields; two-column '
+        'cells with the other delimiter / quotes / spaces / characters that only str.splitlines treats as line breaks (\\x0b \\x0c \\x1c-\\x1e \\x85 U+2028 U+2029) / characters beyond the BMP, first_field and exclude_fields; two-column '
         'tables with arbitrary ids; params dictionaries. Each case = save with the real function, load '
         'with the real function, compare with a type-aware structural equality. non-trivial = distinct '
         'cases holding an array that is non-contiguous / Fortran / rank != 1 / exactly 10-11 long, an int '
@@ -43,7 +43,9 @@ DTYPES = ['bool', 'int8', 'uint8', 'int16', 'uint16', 'int32', 'uint32', 'int64'
           'float32', 'float64', '>f4', '>i2', '>u8']
 LAYOUTS = ['C', 'F', 'strided', 'empty']
 WORDS = ['good', 'mua', 'noise', 'a b', ' lead', 'trail ', 'x,y', 'tab\there', 'q"uote', "it's", 'é✓', '日本',
-         '-', 'n/a', 'None', 'True', 'e', '0x', '1e', '--1', 'in f', '']
+         '-', 'n/a', 'None', 'True', 'e', '0x', '1e', '--1', 'in f', '',
+         # characters that str.splitlines() treats as line breaks but the formats do not; beyond the BMP
+         'page1\x0cpage2', 'a\u2028b', 'x\x85y', 'v\x0bt', 'g\x1cs\x1dr\x1e', 'p\u2029q', 'mouse\U0001F42D', '\U00020000x']
 
 
 def plan(tier, seed):
@@ -123,9 +125,12 @@ def run_shard(desc, ctx):
             if idx % ns == sh:
                 run_case({'kind': 'json_array', 'dtype': dt, 'rank': rank, 'layout': lay, 'length': length,
                           'seed': [desc['seed'], idx]}, ctx, d)
-        if sh < 4:           # size: arrays far beyond any small-array threshold, long lists, deep nesting
+        if sh < 4:           # size: arrays beyond 1 MiB of raw data (and one of exactly 1 MiB), long lists, deep nesting
             rngb = np.random.default_rng([desc['seed'], sh, 1818])
-            big = {'big': (rngb.normal(size=(100000 // (sh + 1), sh + 1)) * 1e3).astype(['float64', 'float32', 'int32', 'uint16'][sh]),
+            # raw sizes straddling 1 MiB: 2**20 + 8 bytes, 1.6 MB, 1.2 MB (Fortran order), 1.2 MB
+            bshape = [(131073, 1), (200000, 2), (100000, 3), (150000, 4)][sh]
+            barr = (rngb.normal(size=bshape) * 1e3).astype(['float64', 'float32', 'int32', 'uint16'][sh])
+            big = {'big': np.asfortranarray(barr) if sh == 2 else barr, 'exactly_1MiB': np.arange(131072, dtype='float64'),
                    7: list(range(3000)), 'deep': {'a': {'b': {'c': [np.arange(11), {'d': np.int16(-3)}]}}}}
             _roundtrip_json({'kind': 'json_big', 'shard': sh}, ctx, d, big, True, ('json_big',))
         nrand = (16000 if tier == 'quick' else 900000) // ns
@@ -320,7 +325,8 @@ def _params(case, ctx, d):
         if k == 1:
             return [30000., 0.1 + 0.2, 1e-7, 2.5e10, -1.5][int(rng.integers(0, 5))]
         if k == 2:
-            return ['int16', 'data.dat', 'a b', 'é', '', 'x#y', ' lead', 'trail ', "it's"][int(rng.integers(0, 9))]
+            return ['int16', 'data.dat', 'a b', 'é', '', 'x#y', ' lead', 'trail ', "it's", '/data/mouse\U0001F42D/rec.bin',
+                    '\U00020000.dat', 'a\u2028b'][int(rng.integers(0, 12))]
         if k == 3:
             return bool(rng.integers(0, 2))
         if k == 4:
